@@ -219,6 +219,33 @@ theorem C06_zero_approval {pol : Policy} {i o : Nat} (hp : pol.feePct < 100)
               · omega
             · simp [h6] at hb
 
+/-- **The allowlist branch of the approver.**  The invoice of an allowlisted payee is an approval whatever the approver
+    says (`handle_proposed_invoice` adds it without asking): it is registered with its amount and is then bounded by
+    `C06_step` / `C06_partial` like any approval.  A keysend to an allowlisted payee is NOT approved by the allowlist
+    (`handle_proposed_keysend` does not look at it): with a declining approver nothing is registered. -/
+theorem C06_allowlisted_payee (h : Hash) (inv : Invoice) (now : Nat) (n : Node) :
+    proposalOp true true false h inv now = .approve h inv now ∧
+    proposalOp false true false h inv now = .decline h inv ∧
+    proposalOp true false false h inv now = .decline h inv ∧
+    (n.exec (.decline h inv)).map (·.1.invoices h) = some (n.invoices h) := by
+  refine ⟨rfl, rfl, rfl, rfl⟩
+
+/-- **The invoice table limit.**  With `policy.max_invoices()` entries in the table a NEW approval is refused and
+    changes nothing (`Err("too many invoices")`); nothing is registered, so nothing new is backed. -/
+theorem C06_table_full (n : Node) (h : Hash) (inv : Invoice) (now : Nat)
+    (hf : n.full = true) (hn : n.invoices h = none) :
+    n.exec (.approve h inv now) = some (n, false) := by
+  simp [Node.exec, hf, hn]
+
+/-- non-vacuity: with a limit of 2 the third hash is refused, a repeat of the first is still answered -/
+example :
+    let n0 := Node.init 2 pol0 ⟨0, .unlimited⟩ ⟨0, 0⟩ 2
+    let r := run n0 [.approve 0 ⟨1000, 1600000060, [0, 0]⟩ 1600000000, .approve 1 ⟨1000, 1600000060, [0, 1]⟩ 1600000000]
+    r.map (·.full) = some true ∧
+    (r.bind (fun n => n.step (.approve 2 ⟨1000, 1600000060, [0, 2]⟩ 1600000000))).map (·.2) = some false ∧
+    (r.bind (fun n => n.step (.approve 0 ⟨1000, 1600000060, [0, 0]⟩ 1600000000))).map (·.2) = some true := by
+  decide +kernel
+
 /-- **Small parts cannot escape the accounting.**  A commitment request that LISTS an HTLC below the trim threshold of
     its direction (`policy-commitment-outputs-trimmed` of `validate_commitment_tx`, which runs before
     `validate_payments`) is refused and changes nothing, on both kinds of commitment. -/
